@@ -228,3 +228,98 @@ func c18ConnKey(c *Ctx) {
 	r.Floor(rule, 2)
 	r.Extra["R6_registry_sites"] = nStore
 }
+
+// C18 extension `R4-once-closes` (added after an independently seeded change —
+// Server.Close returning early from the Once body when the socket was not yet
+// bound, before close(s.Closed) — was missed): a function literal passed to
+// sync.Once.Do that closes a channel must close it on EVERY path, because the
+// Once is consumed by the first call: a path that returns without closing
+// leaves the quit channel open forever and no later Close can signal the loops.
+func init() {
+	ck := registry["C18"]
+	if ck == nil {
+		return
+	}
+	orig := ck.Run
+	ck.Run = func(c *Ctx) {
+		orig(c)
+		c18OnceCloses(c)
+		c.R.Explanation += " Extension R4 ONCE-CLOSES: in every function literal passed to sync.Once.Do in the server packages that closes a channel, the close executes on every path from entry to return (the Once is consumed by the first call)."
+	}
+}
+
+func c18OnceCloses(c *Ctx) {
+	const rule = "R4-once-closes"
+	p, r := c.P, c.R
+	n := 0
+	for _, fn := range p.SrcFuncs() {
+		rp := relPkg(p, fn)
+		if (rp != c18Nbtns && rp != c18Llmnr) || fn.Blocks == nil {
+			continue
+		}
+		for _, b := range fn.Blocks {
+			for _, in := range b.Instrs {
+				ci, ok := in.(ssa.CallInstruction)
+				if !ok {
+					continue
+				}
+				f := ci.Common().StaticCallee()
+				if f == nil || f.String() != "(*sync.Once).Do" {
+					continue
+				}
+				mc, ok := ci.Common().Args[1].(*ssa.MakeClosure)
+				var body *ssa.Function
+				if ok {
+					body, _ = mc.Fn.(*ssa.Function)
+				} else if g, ok := ci.Common().Args[1].(*ssa.Function); ok {
+					body = g
+				}
+				if body == nil || body.Blocks == nil {
+					continue
+				}
+				ord := 0
+				for _, bb := range body.Blocks {
+					for _, x := range bb.Instrs {
+						call, ok := x.(*ssa.Call)
+						if !ok {
+							continue
+						}
+						bi, ok := call.Call.Value.(*ssa.Builtin)
+						if !ok || bi.Name() != "close" {
+							continue
+						}
+						n++
+						ord++
+						construct := fmt.Sprintf("%s: close #%d in the Once body runs on every path", p.FuncName(fn), ord)
+						// a path entry → return that avoids bb?
+						seen := map[*ssa.BasicBlock]bool{}
+						var escape *ssa.BasicBlock
+						var walk func(y *ssa.BasicBlock)
+						walk = func(y *ssa.BasicBlock) {
+							if y == bb || seen[y] || escape != nil {
+								return
+							}
+							seen[y] = true
+							if _, isRet := y.Instrs[len(y.Instrs)-1].(*ssa.Return); isRet {
+								escape = y
+								return
+							}
+							for _, s := range y.Succs {
+								walk(s)
+							}
+						}
+						walk(body.Blocks[0])
+						if escape == nil {
+							r.OK(rule, construct, p.Rel(call.Pos()), "every path from the entry of the Once body to a return passes through the close")
+						} else {
+							pos := p.Rel(call.Pos())
+							r.Fail(rule, construct, pos, "the Once body can return at "+p.Rel(escape.Instrs[len(escape.Instrs)-1].Pos())+" without closing the channel; the Once is then spent, so no later call can close it and the loops waiting on it never exit")
+						}
+					}
+				}
+			}
+		}
+	}
+	r.Floor(rule, 2)
+	r.Extra["R4_once_bodies_closing"] = n
+}
